@@ -381,9 +381,17 @@ class FnEmitter:
             md = self.a.by_id.get(e.get('referencedMemberDecl'))
             if md is not None and md.get('kind') == 'VarDecl':
                 return self.static_member(md, e)
+            is_ref_field = False
+            if md is not None and md.get('kind') == 'FieldDecl':
+                try:
+                    is_ref_field = self.tm.canon_of(md['type']).endswith('&')
+                except Exception:
+                    is_ref_field = False
             if e.get('isArrow'):
-                return '%s->%s' % (self.paren(self.rv(base)), nm)
-            return '%s.%s' % (self.paren(self.lv(base)), nm)
+                t = '%s->%s' % (self.paren(self.rv(base)), nm)
+            else:
+                t = '%s.%s' % (self.paren(self.lv(base)), nm)
+            return '(*%s)' % t if is_ref_field else t
         if k == 'ParenExpr':
             return '(%s)' % self.lv(ch[0])
         if k == 'UnaryOperator':
@@ -753,7 +761,11 @@ class FnEmitter:
             f2 = self.L.funcs[decl['id']]
             # the 'basic allocator' concept is an L0 boundary (exact-size ghost semantics); amc's own SimpleAllocator is proved
             # against malloc/realloc/free in its own units
-            if not (f2.record in L0_BOUNDARY_RECORDS and self.f.record != f2.record):
+            set_boundary = (self.f.record or '').startswith('SmallSet<') and (f2.record or '').startswith('FlatSet<')
+            if set_boundary:
+                # SmallSet is proved against the abstract set specification (SetSpec, ghost/l0_sets.h) shared by std::set and FlatSet
+                this_type = 'SET'
+            elif not (f2.record in L0_BOUNDARY_RECORDS and self.f.record != f2.record):
                 return self.call_lowered(f2, thisarg, args, e, discard)
         # ---- element special members / ghost types / external ----------------------
         return self.call_external(name, ftype, decl, thisarg, this_type, args, e, discard)
@@ -787,6 +799,12 @@ class FnEmitter:
     def call_external(self, name, ftype, decl, thisarg, this_type, args, e, discard):
         L = self.L
         ptypes = [self.tm.NS_RE.sub('', p) for p in fn_param_types(ftype)] if ftype else []
+        if decl is not None:
+            # the declaration is in the dump: its parameter types are desugared there (references hidden behind typedefs)
+            dps = [c for c in decl.get('inner', []) if c.get('kind') == 'ParmVarDecl']
+            if len(dps) == len(ptypes):
+                ptypes = [(c['type'].get('desugaredQualType') or c['type']['qualType']) for c in dps]
+                ptypes = [self.tm.NS_RE.sub('', p) for p in ptypes]
         is_ref = [strip_cv(p).endswith('&') for p in ptypes]
         while len(is_ref) < len(args):
             is_ref.append(False)
@@ -831,6 +849,8 @@ class FnEmitter:
             if (name, ct) in tbl:
                 return '((%s)%s)' % (ct, tbl[(name, ct)])
             raise Unsupported('numeric_limits %s of %s' % (name, ct))
+        if thisarg is None and name == 'make_move_iterator' and len(args) == 1:
+            return '(%s){%s}' % (self.ctype(e), self.val(args[0]))
         if name == '__builtin_expect':
             return self.val(args[0])
         # -- element special members
@@ -852,7 +872,10 @@ class FnEmitter:
         sig = []
         if thisarg is not None:
             argt.append(thisarg())
-            base = 'L0_%s__%s' % (self.tm.tag(this_type), re.sub(r'\W', '_', name.replace('operator()', 'call').replace('operator', 'op')))
+            ttag = 'SET' if this_type == 'SET' else self.tm.tag(this_type)
+            base = 'L0_%s__%s' % (ttag, re.sub(r'\W', '_', name.replace('operator()', 'call').replace('operator', 'op')))
+            if this_type == 'SET' and decl is not None and self.L._is_const_method(decl):
+                base += '_c'
         else:
             base = 'L0_' + re.sub(r'\W', '_', name.replace('operator==', 'op_eq').replace('operator<', 'op_lt').replace('operator!=', 'op_ne'))
         for a_, r in zip(args, is_ref):
@@ -1266,7 +1289,7 @@ class FnEmitter:
                     r = self.L.resolve_member_alias(f.record, member.rstrip('&* '))
                     if r:
                         rcanon = r
-            if re.search(r'enable_if|type-parameter|conditional<|remove_reference', rcanon):
+            if re.search(r'enable_if|type-parameter|conditional<|remove_reference', rcanon) or re.fullmatch(r'[A-Za-z_]\w*::\w+( [*&])?', rcanon):
                 def first_ret(n):
                     if n.get('kind') == 'ReturnStmt' and children(n):
                         return children(n)[0]
@@ -1381,7 +1404,9 @@ class FnEmitter:
                 if re.search(r'\[\d*\]$', canon):
                     continue    # array members: default-initialised storage, nothing to run
                 ct = self.tm.ctype(canon)
-                if ct.startswith('struct ') or ct == 'E':
+                if canon.endswith('&'):
+                    self.pre.append('self->%s = %s;' % (fname, self.addr(init)))
+                elif ct.startswith('struct ') or ct == 'E':
                     self.construct_into(init, '&self->%s' % fname)
                 else:
                     text = self.val(init)
@@ -1626,7 +1651,7 @@ class LoweringDriver(Lowering):
         # L0 primitives: alias signature-suffixed names to the generic implementation; unknown primitive = stop
         l0dir = os.path.join(os.path.dirname(os.path.dirname(os.path.abspath(__file__))), 'ghost')
         known = set()
-        for h in ('l0.h', 'l0_post.h', 'l0_sets.h'):
+        for h in ('l0.h', 'l0_post.h', 'l0_sets.h', 'l0_aset.h'):
             hp = os.path.join(l0dir, h)
             if os.path.exists(hp):
                 known |= set(re.findall(r'^static inline [^\n(]*?\b(L0_\w+)\s*\(', open(hp).read(), re.M))
